@@ -92,7 +92,7 @@ def c03(ctx):
     # `pure` a different compile-time MAX_SIMD_DEGREE), with their natural platform detection
     # the same histories while every thread is interrupted by a signal every 40 us (handler on the
     # thread's own stack): the assembly behind fill() must keep nothing live below the red zone
-    ctx.mon("c03/asm-release-sigstorm", "asm", "release", ["c03", "--scale", "0.5"], env_extra={"VERIF_SIGSTORM": "40"})
+    ctx.mon("c03/asm-release-sigstorm", "asm", "release", ["c03", "--scale", "0.02" if ctx.thorough else "0.5"], env_extra={"VERIF_SIGSTORM": "40"})
     ctx.mon("c03/pure-debug", "pure", "debug", ["c03", "--scale", "0.3"])
     ctx.mon("c03/intr-debug", "intr", "debug", ["c03", "--scale", "0.3"])
     if ctx.thorough:
@@ -108,24 +108,24 @@ def _seam():
 
 def c08(ctx):
     t = ctx.thorough
-    ctx.mon("c08/asm-debug", "asm", "debug", ["c08", "--scale", "1.5" if t else "1"], timeout=5400)
-    ctx.mon("c08/asm-release", "asm", "release", ["c08", "--scale", "1.5" if t else "0.5"], timeout=5400)
+    ctx.mon("c08/asm-debug", "asm", "debug", ["c08", "--scale", "0.6" if t else "1"], timeout=5400)
+    ctx.mon("c08/asm-release", "asm", "release", ["c08", "--scale", "0.6" if t else "0.5"], timeout=5400)
     ctx.mon("c08/huge", "asm", "release", ["huge", "--what", "rayon"], timeout=5400)
     # update_mmap_rayon is a multithreaded entry point too: the file battery of C11 (length lattice
     # around the mmap threshold, special files, block device, reads interrupted by real signals)
     ctx.mon("c08/file-entry-points", "asm", "release", ["c11", "--files-only", "1"], adopt=lambda sig: "update_mmap_rayon" in sig)
-    ctx.mon("c08/intr-debug", "intr", "debug", ["c08", "--scale", "0.6" if t else "0.3"], timeout=5400)
+    ctx.mon("c08/intr-debug", "intr", "debug", ["c08", "--scale", "0.3" if t else "0.3"], timeout=5400)
     import cbuild
     tbb_native = cbuild.build("int", "native", extra_defs=["-DBLAKE3_USE_TBB"], extra_srcs=[_seam()], name="cdrv_int_tbb")
     tbb_asm = cbuild.build("asm", "native", extra_defs=["-DBLAKE3_USE_TBB"], extra_srcs=[_seam()], name="cdrv_asm_tbb")
     tbb_tsan = cbuild.build("int", "tsan", extra_defs=["-DBLAKE3_USE_TBB"], extra_srcs=[_seam()], name="cdrv_int_tbb_tsan")
-    core.cdrv_run(ctx, "c/update_tbb-int", "int", "native", "api", scale=2.0 if t else 1.0, gen_extra=["--tbb", "1"], exe=tbb_native)
-    core.cdrv_run(ctx, "c/update_tbb-asm", "asm", "native", "api", scale=2.0 if t else 1.0, gen_extra=["--tbb", "1"], exe=tbb_asm)
+    core.cdrv_run(ctx, "c/update_tbb-int", "int", "native", "api", scale=0.15 if t else 1.0, gen_extra=["--tbb", "1"], exe=tbb_native)
+    core.cdrv_run(ctx, "c/update_tbb-asm", "asm", "native", "api", scale=0.15 if t else 1.0, gen_extra=["--tbb", "1"], exe=tbb_asm)
     jobs = [
-        lambda: core.cdrv_run(ctx, "c/update_tbb-tsan", "int", "tsan", "api", scale=0.7 if t else 0.3, shards=8, gen_extra=["--tbb", "1"], exe=tbb_tsan,
+        lambda: core.cdrv_run(ctx, "c/update_tbb-tsan", "int", "tsan", "api", scale=0.05 if t else 0.3, shards=8, gen_extra=["--tbb", "1"], exe=tbb_tsan,
                               env_extra={"TSAN_OPTIONS": "halt_on_error=1 exitcode=66"}),
-        lambda: core.tsan_mon(ctx, "rust/tsan", ["c08", "--scale", "0.5" if t else "0.2"]),
-        lambda: core.miri_run(ctx, "rust/miri", ["c08", "--miri-small", "1", "--scale", "0.03" if t else "0.012"], shards=16, flavour="pure-rayon",
+        lambda: core.tsan_mon(ctx, "rust/tsan", ["c08", "--scale", "0.1" if t else "0.2"]),
+        lambda: core.miri_run(ctx, "rust/miri", ["c08", "--miri-small", "1", "--scale", "0.006" if t else "0.012"], shards=16, flavour="pure-rayon",
                               miriflags="-Zmiri-tree-borrows -Zmiri-permissive-provenance -Zmiri-ignore-leaks -Zmiri-seed={shard}"),
     ]
     ctx.parallel(jobs, workers=3)
@@ -248,7 +248,7 @@ def c05(ctx):
     # the same kernels with several threads inside them at once (C intrinsics, clang -O1, no
     # sanitizer): a kernel's result must not depend on what other threads are hashing meanwhile
     import cbuild
-    core.cdrv_run(ctx, "kernels-under-threads/cmt-int-clang", "int", "clang", "api", scale=1.0 if ctx.thorough else 0.3, shards=8, exe=cbuild.build_cmt("clang"),
+    core.cdrv_run(ctx, "kernels-under-threads/cmt-int-clang", "int", "clang", "api", scale=0.05 if ctx.thorough else 0.3, shards=8, exe=cbuild.build_cmt("clang"),
                   gen_extra=["--first-big", "1"], exe_args=lambda i: [str([4, 16, 8][i % 3]), "12" if ctx.thorough else "4", str(ctx.seed * 100 + i)],
                   adopt=lambda sig: sig.startswith("C18/c/") and "mismatch" in sig)
 
@@ -256,15 +256,15 @@ def c05(ctx):
 def c06(ctx):
     # a call that dies instead of returning its result is a C06 violation as well as a C07 one
     died = lambda sig: sig.startswith("C07/api/") and "fatal-signal" in sig
-    core.cdrv_run(ctx, "api/cdrv-asm", "asm", "native", "api", scale=1.0, adopt=died)
-    core.cdrv_run(ctx, "api/cdrv-int", "int", "native", "api", scale=1.0, adopt=died)
+    core.cdrv_run(ctx, "api/cdrv-asm", "asm", "native", "api", scale=0.2 if ctx.thorough else 1.0, adopt=died)
+    core.cdrv_run(ctx, "api/cdrv-int", "int", "native", "api", scale=0.2 if ctx.thorough else 1.0, adopt=died)
     import cbuild
     for tag, ld in (("no-sse41", ["-DBLAKE3_NO_SSE41"]), ("no-avx512-no-avx2", ["-DBLAKE3_NO_AVX512", "-DBLAKE3_NO_AVX2"]), ("no-sse2", ["-DBLAKE3_NO_SSE2"])):
-        core.cdrv_run(ctx, "api/cdrv-int-" + tag, "int", "native", "api", scale=0.25, adopt=died,
+        core.cdrv_run(ctx, "api/cdrv-int-" + tag, "int", "native", "api", scale=0.04 if ctx.thorough else 0.25, adopt=died,
                       exe=cbuild.build("int", "native", name="cdrv_int_" + tag.replace("-", "_"), lib_defs=ld))
     # the intrinsics flavour as clang builds it without optimisation (aligned-access assumptions that
     # an optimiser happens to hide)
-    core.cdrv_run(ctx, "api/cdrv-int-clang-O0", "int", "clangO0", "api", scale=0.25, adopt=died, exe=cbuild.build("int", "clangO0"))
+    core.cdrv_run(ctx, "api/cdrv-int-clang-O0", "int", "clangO0", "api", scale=0.04 if ctx.thorough else 0.25, adopt=died, exe=cbuild.build("int", "clangO0"))
     # size classes no op-script reaches: one call that moves more than 2^32 bytes (one at a time:
     # each probe holds 4-8 GiB)
     core.cdrv_big(ctx, "huge/finalize-2^32+10", "asm", "finalize", (1 << 32) + 10)
@@ -279,20 +279,20 @@ def c06(ctx):
 def c07(ctx):
     t = ctx.thorough
     # 1. native: kernel sweep + API histories, every buffer in a guard arena, asm through trampolines
-    kernel_sweeps(ctx, 1.0 if t else 0.5)
-    core.cdrv_run(ctx, "api/cdrv-asm", "asm", "native", "api", scale=1.5 if t else 0.5)
-    core.cdrv_run(ctx, "api/cdrv-int", "int", "native", "api", scale=1.5 if t else 0.5)
+    kernel_sweeps(ctx, 0.5)
+    core.cdrv_run(ctx, "api/cdrv-asm", "asm", "native", "api", scale=0.3 if t else 0.5)
+    core.cdrv_run(ctx, "api/cdrv-int", "int", "native", "api", scale=0.3 if t else 0.5)
     # 1b. the assembly kernels again while a timer signal handler keeps running on the same stack
     # (stack discipline: nothing live below the red zone / below rsp)
-    so = core.cdrv_run(ctx, "kernels/cdrv-asm-sigstorm", "asm", "native", "kernels", scale=0.5 if t else 0.25, env_extra={"CDRV_SIGSTORM": "40"})
+    so = core.cdrv_run(ctx, "kernels/cdrv-asm-sigstorm", "asm", "native", "kernels", scale=0.1 if t else 0.25, env_extra={"CDRV_SIGSTORM": "40"})
     if not so["classes"].get("storm_signals_inside_monitored_calls"):
         ctx.note_inconclusive("signal storm: no signal was delivered inside a monitored call")
-    ctx.mon("kernels/rust-asm-sigstorm", "asm", "release", ["kern", "--scale", "0.5" if t else "0.2"], env_extra={"VERIF_SIGSTORM": "40"})
-    ctx.mon("rust-api-sigstorm/c03", "asm", "release", ["c03", "--scale", "0.5"], env_extra={"VERIF_SIGSTORM": "40"}, adopt=lambda sig: sig.startswith("C03/"))
+    ctx.mon("kernels/rust-asm-sigstorm", "asm", "release", ["kern", "--scale", "0.07" if t else "0.2"], env_extra={"VERIF_SIGSTORM": "40"})
+    ctx.mon("rust-api-sigstorm/c03", "asm", "release", ["c03", "--scale", "0.02" if ctx.thorough else "0.5"], env_extra={"VERIF_SIGSTORM": "40"}, adopt=lambda sig: sig.startswith("C03/"))
     # 2. Rust API level: every update slice / fill destination flush against a guard page
-    ctx.mon("rust-api-guard/c02", "asm", "debug", ["c02", "--guard", "1", "--scale", "1" if t else "0.3"], adopt=lambda sig: ("canary" in sig or "fatal" in sig))
-    ctx.mon("rust-api-guard/c03", "asm", "debug", ["c03", "--guard", "1", "--scale", "1" if t else "0.3"], adopt=lambda sig: ("canary" in sig or "fatal" in sig))
-    ctx.mon("rust-api-guard/c02-intr", "intr", "debug", ["c02", "--guard", "1", "--scale", "0.5" if t else "0.15"], adopt=lambda sig: ("canary" in sig or "fatal" in sig))
+    ctx.mon("rust-api-guard/c02", "asm", "debug", ["c02", "--guard", "1", "--scale", "0.05" if t else "0.3"], adopt=lambda sig: ("canary" in sig or "fatal" in sig))
+    ctx.mon("rust-api-guard/c03", "asm", "debug", ["c03", "--guard", "1", "--scale", "0.01" if t else "0.3"], adopt=lambda sig: ("canary" in sig or "fatal" in sig))
+    ctx.mon("rust-api-guard/c02-intr", "intr", "debug", ["c02", "--guard", "1", "--scale", "0.03" if t else "0.15"], adopt=lambda sig: ("canary" in sig or "fatal" in sig))
     ctx.mon("safe-api-probes", "asm", "debug", ["probes"])
     ctx.mon("safe-api-probes-intr", "intr", "debug", ["probes"])
     # 3. sanitizer / interpreter / memcheck builds of the same workloads, concurrently
@@ -302,10 +302,10 @@ def c07(ctx):
     def vg(what, scale):
         return lambda: core.cdrv_run(ctx, "valgrind/asm-%s" % what, "asm", "native", what, scale=scale, shards=4, gen_extra=["--no-avx512", "1"],
                                      wrapper=["valgrind", "-q", "--error-exitcode=0", "--track-origins=no"], trace=True, timeout=2400)
-    jobs = [asan("asm", "kernels", 0.4 if t else 0.15), asan("int", "kernels", 0.4 if t else 0.15), asan("asm", "api", 0.7 if t else 0.25), asan("int", "api", 0.7 if t else 0.25),
-            vg("kernels", 0.06 if t else 0.02), vg("api", 0.12 if t else 0.04),
-            lambda: core.miri_run(ctx, "miri/kern", ["kern", "--randomize", "1", "--scale", "0.004" if t else "0.001"], shards=16),
-            lambda: core.miri_run(ctx, "miri/hist", ["c02", "--scale", "0.04" if t else "0.012", "--miri-small", "1"], shards=16)]
+    jobs = [asan("asm", "kernels", 0.04 if t else 0.15), asan("int", "kernels", 0.04 if t else 0.15), asan("asm", "api", 0.04 if t else 0.25), asan("int", "api", 0.04 if t else 0.25),
+            vg("kernels", 0.005 if t else 0.02), vg("api", 0.006 if t else 0.04),
+            lambda: core.miri_run(ctx, "miri/kern", ["kern", "--randomize", "1", "--scale", "0.0004" if t else "0.001"], shards=16),
+            lambda: core.miri_run(ctx, "miri/hist", ["c02", "--scale", "0.002" if t else "0.012", "--miri-small", "1"], shards=16)]
     ctx.parallel(jobs, workers=len(jobs))
 
 
@@ -423,18 +423,18 @@ def c18(ctx):
     cmt = cbuild.build_cmt("native")
     # each cmt invocation forks ROUNDS fresh processes (detection cache UNDEFINED in each), threads
     # start staggered by 0-3 us, every history begins with one large update
-    core.cdrv_run(ctx, "c/cmt", "asm", "native", "api", scale=3.0 if t else 1.5, shards=16, exe=cmt, gen_extra=["--first-big", "1"],
+    core.cdrv_run(ctx, "c/cmt", "asm", "native", "api", scale=0.25 if t else 1.5, shards=16, exe=cmt, gen_extra=["--first-big", "1"],
                   exe_args=lambda i: [str(sizes[i % 4]), "150" if t else "60", str(ctx.seed * 100 + i)])
     # the same with one history in eight opening with a single 1-20 MiB update (process-wide state
     # that depends on input size must not disturb hashers that are in the middle of their own work)
-    core.cdrv_run(ctx, "c/cmt-very-big-first", "asm", "native", "api", scale=1.0 if t else 0.5, shards=16, exe=cmt, gen_extra=["--first-big", "2"],
+    core.cdrv_run(ctx, "c/cmt-very-big-first", "asm", "native", "api", scale=0.08 if t else 0.5, shards=16, exe=cmt, gen_extra=["--first-big", "2"],
                   exe_args=lambda i: [str(sizes[1 + i % 3]), "80" if t else "40", str(ctx.seed * 100 + 50 + i)])
     def tsan_rust():
         for k in range(6 if t else 3):
             core.tsan_mon(ctx, "rust/tsan-proc%d" % k, ["c18", "--nthreads", str([4, 16, 8][k % 3]), "--proc", str(1000 + k), "--per-thread", "3"])
     jobs = [
         tsan_rust,
-        lambda: core.cdrv_run(ctx, "c/cmt-tsan", "int", "tsan", "api", scale=0.5 if t else 0.25, shards=8 if t else 4, exe=cbuild.build_cmt("tsan"),
+        lambda: core.cdrv_run(ctx, "c/cmt-tsan", "int", "tsan", "api", scale=0.04 if t else 0.25, shards=8 if t else 4, exe=cbuild.build_cmt("tsan"),
                               gen_extra=["--first-big", "1"], exe_args=lambda i: [str([4, 16][i % 2]), "6" if t else "3", str(ctx.seed * 100 + i)],
                               env_extra={"TSAN_OPTIONS": "halt_on_error=1 exitcode=66"}),
         lambda: core.miri_run(ctx, "rust/miri", ["c18", "--miri-small", "1", "--nthreads", "3", "--per-thread", "1"], shards=20 if t else 12, flavour="pure",
